@@ -13,7 +13,7 @@ from fractions import Fraction
 
 from audiolazy import overlap_add, Stream
 
-KINDS = ("olaexact",)
+KINDS = ("olaexact", "olaempty")
 
 
 def rsample(rng, kind):
@@ -27,6 +27,16 @@ def rsample(rng, kind):
 
 def cases(ctx):
   rng = ctx.rng
+  # no block at all and no size given: m*h+size-h samples with m = 0 can only
+  # mean "nothing" (the repository's own test_empty expects [] as well)
+  i = 0
+  for cont in ("list", "tuple", "gen", "stream", "deque"):
+    for hop in (None, 1, 3):
+      for wnd in ("none", "callable", "list"):
+        for norm in (None, True, False):
+          if ctx.mine(i):
+            yield ("olaempty", cont, hop, wnd, norm)
+          i += 1
   for _ in ctx.loop(1200, 60000):
     size = rng.randint(1, 8)
     hop = rng.randint(1, size)
@@ -46,7 +56,35 @@ def cases(ctx):
            rng.choice(["list", "tuple", "gen", "stream"]), norm)
 
 
+def run_empty(ctx, case):
+  from collections import deque
+  _, cont, hop, wnd, norm = case
+  src = {"list": list, "tuple": tuple, "gen": iter, "stream": Stream,
+         "deque": deque}[cont]([])
+  kw = {}
+  if hop is not None:
+    kw["hop"] = hop
+  if wnd == "callable":
+    kw["wnd"] = lambda n: [1.] * n
+  elif wnd == "list":
+    kw["wnd"] = [1., 1.]
+  if norm is not None:
+    kw["normalize"] = norm
+  ctx.count("olaempty:cases")
+  try:
+    got = list(overlap_add.list(src, **kw))
+  except Exception as exc:  # noqa - nothing may be raised
+    ctx.violation("olaempty/raises-%s" % type(exc).__name__, case,
+                  exc=repr(exc))
+    return True
+  if got != []:
+    ctx.violation("olaempty/yields-samples-from-no-block", case, got=got[:20])
+  return True
+
+
 def run_case(ctx, case):
+  if case[0] == "olaempty":
+    return run_empty(ctx, case)
   _, size, hop, blks, wnd, cont, norm = case
   m = len(blks)
   n_out = m * hop + size - hop
@@ -90,6 +128,7 @@ def run_case(ctx, case):
 
 def finish(ctx):
   ctx.need("olaexact:cases", 200)
+  ctx.need("olaempty:cases", 100)
   ctx.need("olaexact:overlapping", 100)
   ctx.need("olaexact:window-fractions", 50)
   ctx.need("olaexact:normalised-hop-does-not-divide-size", 20)
